@@ -163,6 +163,8 @@ func makeReader(kind string, stream []byte, sched []int) io.Reader {
 		return bufio.NewReaderSize(bytes.NewReader(stream), 4096)
 	case "bufiochunk":
 		return bufio.NewReaderSize(&chunkReader{b: stream, sched: sched}, 4096)
+	case "bufiosmall": // a bufio.Reader whose buffer is smaller than a packet (explicit packet size; detection needs 193 bytes of buffer)
+		return bufio.NewReaderSize(bytes.NewReader(stream), sched[0])
 	case "plain":
 		return plainReader{bytes.NewReader(stream)}
 	case "seekoff": // a seekable reader handed over positioned behind 8 bytes that are not part of the stream
@@ -507,6 +509,25 @@ func runMerge(sc *streamScenario, vs []variantSpec, rec *recorder) {
 			s = append(s, packetise(v.PID, append([]byte{0}, twinSection(m)...), cc0)...)
 			for i := range bs.pkts {
 				s = append(s, pk(i)...)
+			}
+		case "dupadj", "dupsep":
+			// an exact copy of the last packet of a PAT / PMT PID (the packet completing its last table) right behind the original, or
+			// with a null packet of the multiplex in between: whatever the copy does to its PID, it does it in both multiplexes
+			last := -1
+			for i := range bs.pkts {
+				if bs.pkts[i].PID == v.PID && bs.pkts[i].K == "" {
+					last = i
+				}
+			}
+			for i := range bs.pkts {
+				s = append(s, pk(i)...)
+				if i == last {
+					if v.T == "dupsep" {
+						f := pktSpec{PID: 0x1fff, K: "null", CC: rg.intn(16)}
+						s = append(s, packetBytes(&f, nil, rg)...)
+					}
+					s = append(s, pk(i)...)
+				}
 			}
 		case "corrupt":
 			for i := range bs.pkts {
@@ -1018,6 +1039,9 @@ func runReader(sc *streamScenario, rec *recorder, level int) {
 		for _, rd := range []string{"bytes", "bufio", "plain"} {
 			add(sz, false, rd, nil, "full")
 		}
+	}
+	for _, bsz := range []int{16, 64, 100, 187, 188, 200, 203, 204} {
+		add([]int{188, 192, 204}[bsz%3], false, "bufiosmall", []int{bsz}, fmt.Sprintf("buffer%d", bsz))
 	}
 	fixed := []int{1, 2, 3, 7, 100, 187, 188, 189, 192, 193, 194, 376, 400}
 	if level > 1 {
